@@ -19,7 +19,7 @@ EXPLANATION = (
     "untouched everything that the loop condition and the branch conditions on that path read. Writes are assignments, "
     "augmented assignments, deletions, mutator calls and — conservatively — every object handed to or receiving a "
     "call that the effect summary does not prove pure (including calls inside the loop condition). A path that writes "
-    "nothing it reads re-executes identically for ever on any input that takes it once. R01c no 'for' loop grows or resizes the collection it iterates over (about 140 loops). R01b the three parser passes "
+    "nothing it reads re-executes identically for ever on any input that takes it once. R01c no 'for' loop grows or resizes the collection it iterates over (about 140 loops). R01d (totality, one clause) may-be-None dataflow over the CFG of every parser function: no parameter, local or Optional field/property chain that may be None (Optional annotation, None default, Optional-returning call, dict.get) is dereferenced, ordered, measured, iterated or handed to a non-Optional parameter on any path without a guard - such a path ends in TypeError / AttributeError, an internal error. R01e (bounded work, one clause) every regular expression the package compiles or matches is recovered as a compile-time constant and its parse tree (re._parser) has no repeated group whose body matches c^i and c^j for one character c (i != j) - the shape that makes a backtracking matcher exponential on a near miss; patterns that are not constants are unreachable from per-file processing. R01b the three parser passes "
     "run only inside the handler that converts any exception to a tokenization error (so an internal error is at "
     "least reported, =R15a). Not decided: absence of assertion failures and index errors, None held in object fields, polynomial work (including polynomial regular expressions), loops "
     "whose progress is made by a callee that may or may not mutate (the two known non-termination / assertion "
